@@ -528,3 +528,28 @@ func EtMOpen(newHash func() hash.Hash, aesKey, macKey []byte, ivSize int, ct, ad
 	}
 	return AESCTR(aesKey, body[:ivSize], body[ivSize:]), nil
 }
+
+// GCMSIVTagForZeroInputs computes the RFC 8452 tag (and the message encryption key) for an
+// all-zero associated data of adLen bytes and an all-zero plaintext of ptLen bytes WITHOUT touching
+// the data: POLYVAL absorbs zero blocks without changing its zero state (0*H = 0), so only the
+// length block contributes. Used to check the bit-length block for inputs of 2^29 bytes and more.
+func GCMSIVTagForZeroInputs(key, nonce []byte, adLen, ptLen uint64) (tag, encKey []byte) {
+	auth, enc := gcmsivDerive(key, nonce)
+	lb := make([]byte, 16)
+	binary.LittleEndian.PutUint64(lb[:8], adLen*8)
+	binary.LittleEndian.PutUint64(lb[8:], ptLen*8)
+	s := Polyval(auth, lb)
+	for i := 0; i < 12; i++ {
+		s[i] ^= nonce[i]
+	}
+	s[15] &= 0x7f
+	return aesEnc(enc, s), enc
+}
+
+// GCMSIVKeystreamBlock returns keystream block i of the RFC 8452 counter mode.
+func GCMSIVKeystreamBlock(encKey, tag []byte, i uint32) []byte {
+	ctr := append([]byte{}, tag...)
+	ctr[15] |= 0x80
+	binary.LittleEndian.PutUint32(ctr[:4], binary.LittleEndian.Uint32(ctr[:4])+i)
+	return aesEnc(encKey, ctr)
+}
